@@ -59,7 +59,7 @@ prop('C15', 'p32', 'exploration',
      'generated-input search with an independent model as oracle', 'trusted: interval-set model', COMMON_ASSUME)
 
 prop('C16', 'p32', 'exploration',
-     'three rapid properties: AddOffset64/AddOffset with offsets from {multiples of 65536, small, min->0, max->2^32-1, extremes, any} vs model shift with clipping (+operand unchanged, result independent); static Flip vs model and vs in-place Flip on a clone; '
+     'three rapid properties: AddOffset64/AddOffset with offsets from {multiples of 65536, small, min->0, max->2^32-1, extremes, any} vs model shift with clipping (+operand unchanged, result independent and still correct after growing each of its first chunks in place); static Flip vs model and vs in-place Flip on a clone; '
      'dense conversions: ToDense/WriteDenseTo/DenseSize/ToBitSet/FromBitSet bit-for-bit (DenseSize also for bitmaps anywhere in the key space up to 2^32-1; the 2^26-word vector is materialized once per run), FromDense of generated word slices (lengths 0..4096 not multiples of 1024, palettes) with both copy modes where the caller words live in a PROT_READ guarded mapping and the result is then mutated. '
      'Non-trivial = offset not a multiple of 65536 with adjacent chunks / flip range spanning chunks / dense slice with a partial last chunk; distinct = FNV-64 of the case',
      T(4, 1000, 16, 15000),
@@ -69,8 +69,8 @@ prop('C16', 'p32', 'exploration',
 SER_ASSUME = COMMON_ASSUME + ['the independent portable/frozen codecs (harness/spec) are a correct reading of the format texts; they reproduce the Java/C golden files byte for byte (anchor tests run before every check)']
 
 prop('C05', 'pser', 'fault_enumeration',
-     'rapid draws history-dependent bitmaps (spec x form, then 0-6 mutations / algebra steps; 0..300 chunks) x entry point {ReadFrom with a generated reader chunking incl. 1 byte at a time, FromBuffer, FromUnsafeBytes, UnmarshalBinary, FromBase64} x receiver {fresh, reused built, reused zero-copy, copy-on-write on} x trailing garbage; '
-     'checks writer agreement, byte accounting, exact consumption, Equals, post-decode operation history vs model; then ENUMERATES writer failure offsets (every offset when the stream is <=4096 bytes, else section boundaries +-1 and 128 random) in two failure modes. '
+     'rapid draws history-dependent bitmaps (spec x form, then 0-6 mutations / algebra steps; 0..300 chunks) x entry point {ReadFrom with a generated reader chunking incl. 1 byte at a time (one time in four with the 4-byte cookie passed separately, also via MustReadFrom), FromBuffer, FromUnsafeBytes, UnmarshalBinary, FromBase64} x receiver {fresh, reused built, reused zero-copy, copy-on-write on} x trailing garbage; '
+     'checks writer agreement, byte accounting, exact consumption, Equals, that the copying entry points do not keep the caller's bytes (they are overwritten afterwards), post-decode operation history vs model; then ENUMERATES writer failure offsets (every offset when the stream is <=4096 bytes, else section boundaries +-1 and 128 random) in two failure modes. '
      'Non-trivial = >=1 chunk and (reused receiver or a non-trivial reader chunking); distinct = FNV-64 of (history, entry, chunking, receiver). The regression tests add the empty bitmap, 65536 chunks, and an exhaustive small-scope sweep of reused receivers (26 previous sizes x 4 growth histories x every stream size up to 2R+8 x 5 entry points).',
      T(4, 600, 16, 8000),
      'property-based round-trip testing + exhaustive writer-fault enumeration per generated stream',
@@ -88,14 +88,14 @@ prop('C06', 'pser', 'exploration',
 
 prop('C13', 'pser', 'exploration',
      'rapid draws history-dependent bitmaps; Freeze / FreezeTo (exact size, size+extra with sentinels, four too-small sizes) / WriteFrozenTo must agree byte for byte with GetFrozenSizeInBytes; the bytes are parsed by an independent strict decoder of the CRoaring frozen layout (arena order, tables, typecodes, count semantics per kind, cookie+count header); '
-     'FrozenView/MustFrozenView over the bytes in a PROT_READ guarded mapping must be Equal, validate, survive a generated write history (copying) with a forced GC, leave the bytes intact, and re-freeze identically; about a third of the cases then hand the library-written frozen bytes to the zero-copy operation machine of C08 (algebra in both roles, chunk-emptying removals, derived bitmaps, detaching, structural buffer oracle). Non-trivial = >=2 chunk kinds present; distinct = FNV-64 of the history. Regression: empty bitmap and 65536 chunks.',
+     'FrozenView/MustFrozenView over the bytes in a PROT_READ guarded mapping (into a fresh bitmap, one that holds other chunks, or one that is a view of another image) must be Equal, validate, survive a generated write history (copying) with a forced GC, leave the bytes intact, and re-freeze identically; about a third of the cases then hand the library-written frozen bytes to the zero-copy operation machine of C08 (algebra in both roles, chunk-emptying removals, derived bitmaps, detaching, structural buffer oracle). Non-trivial = >=2 chunk kinds present; distinct = FNV-64 of the history. Regression: empty bitmap and 65536 chunks.',
      T(4, 600, 16, 8000),
      'property-based round-trip + differential testing against an independent frozen-layout decoder; guarded read-only memory',
      'generated-input search with independent decoder and memory-protection instruments',
      'trusted: my reading of the CRoaring frozen layout comment, anchored on testfrozendata/*', SER_ASSUME)
 
 POOL_RULES = ('rapid state machine over a pool of <=6 live bitmaps, each with its own model: rules new (any spec/form, optionally on the keys of an existing member), Clone, static And/Or/Xor/AndNot, static Flip, AddOffset64, FastOr/HeapOr/HeapXor/FastAnd/ParOr/ParHeapOr/ParAnd over lists drawn from the pool (duplicates, empties, worker counts 0..7), '
-              'in-place And/Or/Xor/AndNot (incl. self), AndAny, point/range/bulk mutations aimed at chunk keys that several members have in common, SetCopyOnWrite (never on zero-copy lineage), RunOptimize, CloneCopyOnWriteContainers; constructive rules aimed at representation maintenance: trimRuns, andRange, comb, cowClone, dropChunks, andNotOwnPrefix, cutLongRun (range/flip ending exactly behind the longest interval of a run chunk), tinyRanges (1-14 ranges of 1-4 values, one per chunk), addManyComb (one AddMany of up to 3000 isolated values), reAddRange (AddRange over what is already there)')
+              'in-place And/Or/Xor/AndNot (incl. self), AndAny, point/range/bulk mutations aimed at chunk keys that several members have in common, SetCopyOnWrite (never on zero-copy lineage), RunOptimize, CloneCopyOnWriteContainers; constructive rules aimed at representation maintenance: trimRuns, andRange, comb, cowClone, dropChunks, andNotOwnPrefix, cutLongRun (range/flip ending exactly behind the longest interval of a run chunk), tinyRanges (1-14 ranges of 1-4 values, one per chunk), addManyComb (one AddMany of up to 3000 isolated values), reAddRange (AddRange over what is already there), landOnThreshold (shrink a chunk to exactly 4095/4096/4097 values by range removal, point removals, AndNot/Xor with an array-sized mask), orRunPair / orInterleavedSparse (two run-efficient run chunks whose union is not); point mutations also through CheckedAdd/CheckedRemove/AddInt')
 
 prop('C07', 'p32', 'exploration',
      POOL_RULES + '. Invariant after EVERY step: every pool member equals its own model (so interference in any direction is caught where it happens), the caller\'s argument slice is unchanged, no function returns one of its inputs, '
@@ -126,7 +126,7 @@ prop('C14', 'p32', 'exploration',
 
 prop('C11', 'p32', 'exploration',
      'rapid draws a list of 0..8 bitmaps (pointer duplicates, empty members, any chunk kinds and storage forms) whose keys fall in a common window of 1..260 keys placed at the bottom, middle or very top (ending at 0xFFFF) of the key space; one of FastOr/HeapOr/ParOr/ParHeapOr/FastAnd/ParAnd/HeapXor/x.AndAny is compared with the model fold; '
-     'the Par* functions are run with EVERY worker count in {0,1,2,3,4,7,16,33} on the same list and each result is compared; afterwards a second aggregate of another kind over the same list is compared with its fold and every member (and the bytes behind zero-copy members) with its model. Non-trivial = >=3 members, >=2 distinct keys, >=1 key common to >=2 members; distinct = FNV-64 of (list, fn)',
+     'the Par* functions are run with EVERY worker count in {0,1,2,3,4,7,16,33} on the same list and each result is compared (members may be related to earlier members: complement, threshold, touching spans; full-chunk members are placed first); TestC11Matrix enumerates 27 boundary templates x derived partners (same, complement, combs touching the largest/smallest value with cardinality sums 4096/4097) x kinds x 5 list shapes x 13 aggregates; afterwards a second aggregate of another kind over the same list is compared with its fold and every member (and the bytes behind zero-copy members) with its model. Non-trivial = >=3 members, >=2 distinct keys, >=1 key common to >=2 members; distinct = FNV-64 of (list, fn)',
      T(4, 700, 16, 10000),
      'property-based differential testing of n-ary aggregates against a model fold, all worker counts per case',
      'generated-input search with an independent model as oracle', 'trusted: interval-set model', COMMON_ASSUME)
@@ -174,7 +174,7 @@ BSI_ASSUME = ['the BSI reference model is a map column -> math/big.Int maintaine
 
 prop('C19', 'pbsi', 'exploration',
      'rapid state machine over (index, map column->big.Int), run for roaring64.BSI and BitSliceIndexing.BSI: SetValue, SetBigValue (64, values up to +-9*2^100), SetMany, ClearValues, Retain (64), ParOr of 1-3 separately built indexes on free columns with their own widths and worker counts {0,1,2,5}, Increment/IncrementAll/Add (only while all values are non-negative and in range), '
-     'Clone / NewBSIRetainSet (continue on the copy, originals re-checked at the end), operands of Add/ParOr kept with their own maps (re-checked at the end, re-used by later Add calls), MarshalBinary->UnmarshalBinary, WriteTo->ReadFrom (64), RunOptimize; flavours: auto-sized and fixed NewBSI(max,min) with values inside [min,max]; columns in several chunks/buckets incl. 2^32-1 and (64) up to 2^64-1. '
+     'SetManyComb (4097-6000 scattered columns in one chunk) and ClearRange (run-shaped found-set, ends on word edges), Clone / NewBSIRetainSet (continue on the copy, originals re-checked at the end), operands of Add/ParOr kept with their own maps (re-checked at the end, re-used by later Add calls), MarshalBinary->UnmarshalBinary, WriteTo->ReadFrom (64; also into an index that already holds other values), RunOptimize; flavours: auto-sized and fixed NewBSI(max,min) with values inside [min,max]; columns in several chunks/buckets incl. 2^32-1 and (64) up to 2^64-1. '
      'After every step: ValueExists/GetValue/GetBigValue for every column of the universe (present and absent), GetCardinality, GetValues/GetBigValues with duplicate and missing ids (64), Equals between copy and original (64). Non-trivial = history contains a negative value, a widening, and a copy/serialization step after both; distinct = FNV-64 of the history',
      T(4, 1500, 16, 20000),
      'model-based stateful property testing of both BSI implementations against a column->big.Int map',
@@ -192,7 +192,7 @@ prop('C12', 'pconc', 'exploration',
      'three rapid properties in a binary built with -race (checkptr off, because the library\'s unaligned unsafe casts trip it): (1) ParOr/ParHeapOr/ParAnd/roaring64.ParOr over generated lists (0..6 members incl. empties and pointer duplicates, key windows of 1..260 keys at the bottom/middle/top of the key space: zero work items up to more items than every channel capacity) x workers {0,1,2,3,8,16} x GOMAXPROCS {1,2,4,16} x 1-3 repetitions x (half of the cases) a generated per-site delay table applied through the verif scheduling hook (nothing / Gosched / 5x Gosched / 20us / 300us sleep before each channel operation of the library), optionally two concurrent callers sharing the inputs (inputs re-checked against their models afterwards), result == sequential model fold; '
      '(2) 2..8 goroutines decode their own streams concurrently through ReadFrom (yielding readers, pooled adapters), FromBuffer and FromUnsafeBytes after 0..4 failing decodes, each result must equal its own source; (3) the goroutine-parallel BSI paths (CompareValue, Sum, MinMax, TransposeWithCounts, BatchEqual, ParOr, ClearValues, NewBSIRetainSet) on up to 400 columns vs directly computed answers. '
      'Every call runs under a 90 s watchdog (expiry = deadlock/hang, library goroutine stacks dumped), the goroutine count must return to its baseline, and any race-detector report fails the run. Non-trivial = the call took a parallel path (>=2 keys / >=2 decoders / >=2 columns and workers != 1); distinct = FNV-64 of (list, fn, workers, GOMAXPROCS)',
-     T(8, 60, 16, 1500),
+     T(8, 160, 16, 1500),
      'property-based testing under the Go race detector with generated worker counts / GOMAXPROCS, watchdog and goroutine-leak accounting',
      'schedules are SAMPLED (GOMAXPROCS x workers x repetition x yielding readers x generated delay tables at the library\'s channel operations), not enumerated; the race detector reports only races on executed paths',
      'trusted: Go race detector; interval-set model; the scheduling hook perturbs, it does not control, the Go scheduler', COMMON_ASSUME, race=True, run='^TestC12')
